@@ -512,3 +512,164 @@ def rand_jar_history(seed):
         else:
             steps.append({"op": "tick", "a": jar_a()})
     return steps
+
+
+# ====================================================================== repository-test traces (harness/pytest_cookie_plugin.py)
+def _is_token(s):
+    return bool(s) and all(c.isascii() and (c.isalnum() or c in "!#$%&'*+-.^_`|~") for c in s)
+
+
+IDNA_KNOWN = {"☃", "b\xfccher", "例え", "m\xfcnchen"}
+
+
+def _instant(v):
+    """datetime / number -> whole seconds since the epoch (naive = UTC), None if not representable"""
+    import math
+
+    if isinstance(v, bool):
+        return None
+    if isinstance(v, datetime):
+        if v.tzinfo is None:
+            v = v.replace(tzinfo=timezone.utc)
+        d = v - datetime(1970, 1, 1, tzinfo=timezone.utc)
+        return d.days * 86400 + d.seconds
+    if isinstance(v, (int, float)):
+        if isinstance(v, float) and not math.isfinite(v):
+            return None
+        return math.floor(v)
+    return None
+
+
+def attrs_from_call(b):
+    """bound dump_cookie arguments (dict) -> (attribute record, reason); reason != '' = outside the judged domain"""
+    a = dict(NO_ATTRS)
+    key, value = b.get("key"), b.get("value", "")
+    if not isinstance(key, str) or not _is_token(key):
+        return a, "key is not an RFC 7230 token"
+    if not isinstance(value, str) or any(0xD800 <= ord(c) <= 0xDFFF for c in value):
+        return a, "value is not a text of scalar values"
+    path, domain = b.get("path", "/"), b.get("domain")
+    if path is not None:
+        if not isinstance(path, str) or path == "":
+            return a, "path empty or not text"
+        a["path_set"], a["path"] = True, cps(path)
+    if domain is not None:
+        if not isinstance(domain, str) or domain == "":
+            return a, "domain empty or not text"
+        host = domain.partition(":")[0].lstrip(".")
+        if any((not lab.isascii()) and lab not in IDNA_KNOWN for lab in host.split(".")) or any(c in host for c in ";, \t\r\n"):
+            return a, "domain outside the IDNA table / not a host name"
+        a["dom_set"], a["domain"] = True, cps(domain)
+    ma = b.get("max_age")
+    if ma is not None:
+        if isinstance(ma, timedelta):
+            if ma.microseconds and ma < timedelta(0):
+                return a, "negative fractional max_age"
+            n, kind = int(ma.total_seconds()), "td"
+        elif isinstance(ma, int) and not isinstance(ma, bool):
+            n, kind = ma, "int"
+        else:
+            return a, "max_age neither int nor timedelta"
+        a.update(ma_kind=kind, ma_neg=n < 0, ma_digits=[int(c) for c in str(abs(n))])
+    ex = b.get("expires")
+    if ex is not None:
+        if isinstance(ex, str):
+            a.update(exp_kind="str", exp_text=cps(ex))
+        else:
+            t = _instant(ex)
+            if t is None or not (-62135596800 <= t <= 253402300799):
+                return a, "expires not representable"
+            a.update(exp_kind="dt" if isinstance(ex, datetime) else "ts", exp_days=t // 86400, exp_secs=t % 86400)
+    ss = b.get("samesite")
+    if ss is not None:
+        if not isinstance(ss, str):
+            return a, "samesite not text"
+        a["ss_set"], a["samesite"] = True, cps(ss)
+    a["sync"] = bool(b.get("sync_expires", True))
+    a["secure"], a["httponly"], a["partitioned"] = bool(b.get("secure")), bool(b.get("httponly")), bool(b.get("partitioned"))
+    return a, ""
+
+
+def dump_line_from_record(rec):
+    """a dump_cookie call recorded in the repository's tests -> CookieTrace line; the parse-back is performed here, on the recorded header"""
+    from werkzeug import http
+    from werkzeug.sansio import http as sansio_http
+
+    line = {"op": "dump", "flow": "repo-tests:" + rec["via"], "key": cps(rec["key"]), "value": cps(rec["value"]), "a": rec["a"], "exc": rec["exc"],
+            "hdr": cps(rec["hdr"]), "full": [], "req": [], "ps": [], "pe": [], "perr": "",
+            "t0d": rec["t0"] // 86400, "t0s": rec["t0"] % 86400, "t1d": rec["t1"] // 86400, "t1s": rec["t1"] % 86400}
+    if rec["exc"] == "":
+        req = rec["hdr"].split(";", 1)[0]
+        line["req"] = cps(req)
+        try:
+            line["full"] = _pairs(sansio_http.parse_cookie(rec["hdr"]))
+            line["ps"] = _pairs(sansio_http.parse_cookie(req))
+            line["pe"] = _pairs(http.parse_cookie({"HTTP_COOKIE": req}))
+        except Exception as e:
+            line["perr"] = type(e).__name__
+    return line
+
+
+JAR_CLAMP = 2_000_000_000
+
+
+def jar_time(t, base):
+    """absolute seconds -> seconds relative to the session base, clamped into TLC's integers, avoiding the sentinels"""
+    if t == 0:
+        return EPOCH
+    r = max(min(t - base, JAR_CLAMP), -JAR_CLAMP)
+    return -3 if r in (ABSENT, EPOCH) else r
+
+
+def jar_sc_from_dump(b, base):
+    """bound dump_cookie arguments -> the Set-Cookie part of a ClientJar argument record (or a reason why the session stops being judged)"""
+    import email.utils
+
+    key, value = b.get("key"), b.get("value", "")
+    if not isinstance(key, str) or not isinstance(value, str) or key == "":
+        return None, "cookie name / value not text"
+    out = {"name": cps(key), "val": cps(value), "domattr": [], "pathattr": [], "ma": ABSENT, "exp": ABSENT, "ss": []}
+    dom, path = b.get("domain"), b.get("path", "/")
+    if dom:
+        if not (dom.isascii() and dom == dom.lower() and ":" not in dom and not dom.startswith(".")):
+            return None, "domain is normalised by dump_cookie (port / dot / case / IDNA)"
+        out["domattr"] = cps(dom)
+    if path is not None:
+        if not path or any(not (c.isascii() and (c.isalnum() or c in "/_.-~")) for c in path):
+            return None, "path is quoted by dump_cookie"
+        out["pathattr"] = cps(path)
+    ma = b.get("max_age")
+    if ma is not None:
+        n = int(ma.total_seconds()) if isinstance(ma, timedelta) else ma
+        if isinstance(n, bool) or not isinstance(n, int) or abs(n) > 10**8:
+            return None, "max_age not a small int"
+        out["ma"] = n
+    ex = b.get("expires")
+    if ex is not None:
+        if isinstance(ex, str):
+            try:
+                ex = email.utils.parsedate_to_datetime(ex)
+            except Exception:
+                return None, "expires text not a date"
+        t = _instant(ex)
+        if t is None:
+            return None, "expires not representable"
+        out["exp"] = jar_time(t, base)
+    ss = b.get("samesite")
+    if ss is not None:
+        if not isinstance(ss, str) or ss.title() not in ("Strict", "Lax", "None"):
+            return None, "samesite invalid"
+        out["ss"] = cps(ss.title())
+    out["secure"] = bool(b.get("secure")) or bool(b.get("partitioned"))
+    out["httponly"] = bool(b.get("httponly"))
+    return out, ""
+
+
+def jar_cookie_rec(ck, base):
+    """a werkzeug.test.Cookie -> projected record in seconds relative to the session base"""
+    exp = ABSENT
+    if ck.expires is not None:
+        exp = jar_time(_instant(ck.expires), base)
+    ma = ABSENT if ck.max_age is None else max(min(ck.max_age, JAR_CLAMP), -JAR_CLAMP)
+    return {"dom": cps(ck.domain), "path": cps(ck.path), "name": cps(ck.decoded_key), "val": cps(ck.decoded_value), "ho": bool(ck.origin_only),
+            "secure": bool(ck.secure), "httponly": bool(ck.http_only), "ss": cps(ck.same_site or ""), "ma": ma, "exp": exp}
